@@ -190,6 +190,13 @@ func (v *Verifier) checkTableImmutable(sp *ssa.Package, g *ssa.Global) error {
 					if b, isB := t.Call.Value.(*ssa.Builtin); isB && (b.Name() == "len" || b.Name() == "cap") {
 						continue
 					}
+					// functions of package bytes that only read their arguments
+					if f, isF := t.Call.Value.(*ssa.Function); isF && f.Pkg != nil && f.Pkg.Pkg.Path() == "bytes" {
+						switch f.Name() {
+						case "Index", "IndexByte", "LastIndex", "Equal", "HasPrefix", "HasSuffix", "Contains", "Compare", "Count":
+							continue
+						}
+					}
 					return false
 				case *ssa.Range, *ssa.BinOp, *ssa.Phi:
 					if _, isPhi := r.(*ssa.Phi); isPhi {
@@ -254,7 +261,16 @@ func (v *Verifier) tableFacts(fx *FnCtx, g *ssa.Global, val Value) {
 	switch u := t.Underlying().(type) {
 	case *types.Slice:
 		var elems []json.RawMessage
-		if err := json.Unmarshal(raw, &elems); err != nil {
+		if b, ok := u.Elem().Underlying().(*types.Basic); ok && b.Kind() == types.Uint8 && len(raw) > 0 && raw[0] == '"' {
+			// encoding/json renders []byte as a base64 string
+			var bs []byte
+			if err := json.Unmarshal(raw, &bs); err != nil {
+				fx.fail("table %s: %v", key, err)
+			}
+			for _, x := range bs {
+				elems = append(elems, json.RawMessage(fmt.Sprint(int(x))))
+			}
+		} else if err := json.Unmarshal(raw, &elems); err != nil {
 			fx.fail("table %s: %v", key, err)
 		}
 		n := int64(len(elems))
